@@ -96,6 +96,17 @@ def run(ctx: Ctx) -> int:
 	replay['graph'] = 'Chain'
 	ctx.log(f'replayed {replay["edges"]} edges ({replay["stats"].get("runs", 0)} real runs, {replay["stats"].get("texts_compared", 0)} output texts compared); {len(replay["failures"])} discrepancies')
 	violations = collect(ctx, 'C06', replay)
+	# the diamond a -> {b, c} -> d
+	dsound = tlc.run('MCTranp', 'TranpD_runner_sound.cfg', workers=16, timeout=900)
+	if not dsound.ok:
+		raise Machinery(f'TLC: the deep-header model violates a C06 clause on the diamond graph: {dsound.out[-1500:]}')
+	dres = tlc.run('MCTranp', 'TranpD_runner_edges4.cfg' if quick else 'TranpD_runner_edges5.cfg', workers=1, timeout=900)
+	dedges = [json.loads(line) for line in dres.lines('EDGE ')]
+	dreplay = replay_edges('Diamond', dedges)
+	dreplay['graph'] = 'Diamond'
+	ctx.log(f'diamond graph: deep header {dsound.distinct} states OK; replayed {dreplay["edges"]} edges ({dreplay["stats"].get("runs", 0)} real runs); {len(dreplay["failures"])} discrepancies')
+	seen = {v.key for v in violations}
+	violations += [v for v in collect(ctx, 'C06', dreplay) if v.key not in seen]
 	v2, extra = outpath_cases(ctx)
 	violations += v2
 	ctx.log(f'OutPath: {extra["outpath_cases"]} mapping cases, {extra["headers_round_tripped"]} headers round-tripped')
@@ -110,7 +121,9 @@ def run(ctx: Ctx) -> int:
 		'stale_outputs_reproduced': replay['stats'].get('stale_reproduced', 0),
 		'design_level_counterexample_with_coded_header': design_cex,
 		'exhaustive': True,
-		'bounds': {'graph': 'chain a->b->c', 'variants': 2, 'operations': 4 if quick else 6},
+		'bounds': {'graph': 'chain a->b->c and diamond a->{b,c}->d', 'variants': 2, 'operations': 4 if quick else 6},
+		'diamond_edges_replayed_on_impl': dreplay['edges'],
+		'diamond_real_runs': dreplay['stats'].get('runs', 0),
 		'samples': [{'edge': edges[len(edges) // 2]['op']}],
 		**extra,
 	}
